@@ -74,6 +74,7 @@ type SpecFunc struct {
 	Ret    string
 	Body   *SExpr // nil => uninterpreted
 	Rec    bool
+	Reads  []string // heap components the body may read (become implicit parameters)
 	Macro  bool // expanded at the call site (may read the heap of the calling context)
 	Ghost  bool // ghost state: a heap component indexed by the (reference of the) argument
 	Pkg    string
@@ -102,6 +103,8 @@ type SpecFile struct {
 }
 
 var kwRe = regexp.MustCompile(`^(uses|manual|keeps|macro|ghost|func|requires|ensures|assigns|invariant|loop|behaviour|behavior|spec|axiom|lemma|decreases|inline|trusted|overflow|nopanic|props|panics|assert|rec)\b`)
+
+var readsRe = regexp.MustCompile(`\s+reads\s*\{([^}]*)\}\s*`)
 
 var sigRe = regexp.MustCompile(`^(\w+)\s*\(([^)]*)\)\s*(\S+)?\s*(?:=\s*(.*))?$`)
 
@@ -299,6 +302,13 @@ func ParseSpecFile(path, pkg string) (*SpecFile, error) {
 				rec = true
 				rest = strings.TrimSpace(strings.TrimPrefix(rest, "spec"))
 			}
+			var reads []string
+			if rm := readsRe.FindStringSubmatch(rest); rm != nil {
+				for _, r := range splitTop(rm[1]) {
+					reads = append(reads, strings.TrimSpace(r))
+				}
+				rest = strings.Replace(rest, rm[0], " ", 1)
+			}
 			m := sigRe.FindStringSubmatch(rest)
 			if m == nil {
 				return nil, fail("bad spec function declaration")
@@ -307,7 +317,7 @@ func ParseSpecFile(path, pkg string) (*SpecFile, error) {
 			if err != nil {
 				return nil, fail("%v", err)
 			}
-			s := &SpecFunc{Name: m[1], Params: ps, Ret: m[3], Pkg: pkg, File: path, Line: it.no, Text: rest, Rec: rec, Macro: kw == "macro"}
+			s := &SpecFunc{Name: m[1], Params: ps, Ret: m[3], Pkg: pkg, File: path, Line: it.no, Text: rest, Rec: rec, Macro: kw == "macro", Reads: reads}
 			if m[4] != "" {
 				e, err := parseSpecExpr(m[4])
 				if err != nil {
